@@ -256,4 +256,16 @@ QuiescentInv ==
 Bound == \A p \in P : Has(p) => (Len(tcb[p].ones) <= 3 /\ Len(tcb[p].heap) <= 3)
 
 EmitSchedule == (Len(hist) < HistLen /\ ENABLED Next) \/ PrintT(<<"SCHED", ToJson(hist)>>)
+(***************************************************************************)
+(* "Eventually" as a temporal property.  All environment actions consume a *)
+(* budget, so every infinite behaviour consists of protocol steps only: a  *)
+(* cycle in the state graph is two endpoints keeping each other busy for   *)
+(* ever on a network that has stopped losing segments (the TIME-WAIT       *)
+(* ping-pong of finding F4 was such a cycle).  Under weak fairness of Next *)
+(* every behaviour must come to rest, and QuiescentInv says what holds     *)
+(* there.  Checked without a state constraint.                             *)
+(***************************************************************************)
+FairSpec == Spec /\ WF_vars(Next)
+Termination == <>[][FALSE]_vars
+
 =============================================================================
